@@ -75,6 +75,7 @@ type Contract struct {
 	GhostInc   [][2]string // ghost counters advanced by every call: (name, parameter)
 	Triggers   []*Clause   // lemma: multi-patterns used when the lemma is instantiated by `uses`
 	Uses       []string    // proved lemmas assumed (universally quantified) in this proof
+	Drift      []string    // clauses that no longer apply to the code (dropped; reported)
 	Induction  string // lemma: induction variable
 }
 
